@@ -160,8 +160,10 @@ def load_known(prop):
         return [], []
     with open(common.KNOWN) as f:
         data = json.load(f)
-    known = [e for e in data.get("findings", []) if e["property"] == prop]
-    fixed = [e for e in data.get("fixed", []) if e["property"] == prop]
+    def applies(e):
+        return prop == e.get("property") or prop in e.get("properties", [])
+    known = [e for e in data.get("findings", []) if applies(e)]
+    fixed = [e for e in data.get("fixed", []) if applies(e)]
     return known, fixed
 
 
